@@ -457,6 +457,13 @@ C17_Lease ==
 
 -----------------------------------------------------------------------------
 (* C14 / C18 -- aborts, panics, failed restarts *)
+\* ... and the restarted node catches up with the leader (judged in the fault-free period of
+\* scenarios in which a node was crashed at a storage-operation boundary)
+C14_CatchUp ==
+  IF Is("heal_done") /\ Ev.conv = "no" /\ dead # {} /\ meta.family = "crashpoint"
+    THEN {V("C14", "RestartedNodeDidNotCatchUp", <<dead, [n \in DOMAIN finals |-> <<finals[n].running, finals[n].role, finals[n].commit, finals[n].applied>>]>>)}
+    ELSE {}
+
 C14_Abort ==
   (IF Is("abort") THEN {V("C14", "Abort", <<Ev.why>>)} ELSE {})
   \cup (IF Is("restart_fail") THEN {V("C14", "RestartFailed", <<Ev.node, Ev.err>>)} ELSE {})
@@ -694,7 +701,7 @@ NewBad ==
              \cup C06_LogMatching \cup C06_Handler \cup C06_Commit
              \cup C08_TermMonotone \cup C08_OneVote \cup C08_VoteUpToDate \cup C08_PrevoteInert \cup C08_Reload
              \cup C03_FutureTruth \cup C03_AtMostOnce \cup C03_RealTime \cup C03_NoInvention
-             \cup C04_AckDurable \cup C04_Replay \cup C05_Reads \cup C17_Lease \cup C14_Abort \cup C18_Panic \cup Recorder
+             \cup C04_AckDurable \cup C04_Replay \cup C05_Reads \cup C17_Lease \cup C14_Abort \cup C14_CatchUp \cup C18_Panic \cup Recorder
              \cup C15_Converge \cup C18_Futures \cup C09_FutureTruth
              \cup C16_Healthy \cup C10_Snapshot \cup C10_Fsm \cup C11_Log
              \cup C09_CfgAgreement \cup C09_LeaderVotes \cup C09_VoteRequests \cup C09_CommitMajority
